@@ -749,17 +749,29 @@ Fixpoint first_ge (pts : list N) (x : N) : option N :=
 
 Definition mem_N (v : N) (l : list N) : bool := existsb (N.eqb v) l.
 
-Definition check_call (ops : list op) (pts : list N) (alive : list bool) (fw : list (nat * N * N * bool))
-           (c : nat) (oc : ocall) (in_group : bool) : bool :=
+(* SAFETY clauses (proved to hold of every model run: C09_oracle_sound_safety): a Timeout is never
+   early; a forward is issued exactly once, with the reply's value and at the completion time,
+   iff a forwarding call succeeded *)
+Definition check_call_safe (fw : list (nat * N * N * bool)) (c : nat) (oc : ocall) : bool :=
   let fw_c := filter (fun e => Nat.eqb (fst (fst (fst e))) c) fw in
-  (* Success v only if v was designated for THIS call's port *)
+  (match oc_res oc, oc_tmo oc with
+   | OTimeout, Some T => oc_t0 oc + T <=? oc_done oc
+   | OTimeout, None => false
+   | _, _ => true
+   end)
+  && (match oc_fwd oc, oc_res oc with
+      | Some _, OSuccess v =>
+          match fw_c with [(_, v', t, _)] => (v' =? v) && (t =? oc_done oc) | _ => false end
+      | _, _ => match fw_c with [] => true | _ => false end
+      end).
+
+(* the remaining clauses (checked by evaluation on every scenario, not proved of all model runs):
+   Success v only with a value designated for THIS call's port; with a timeout the answer is
+   there by the first instant the run queue was drained at/after the wheel-rounded deadline; no
+   pending caller whose callee is gone unless its port was handed to a task that still holds it *)
+Definition check_call_rest (ops : list op) (pts : list N) (alive : list bool)
+           (c : nat) (oc : ocall) (in_group : bool) : bool :=
   (match oc_res oc with OSuccess v => mem_N v (designated ops c) | _ => true end)
-  (* a timeout is never early; with a timeout the answer is there by the (wheel-rounded) deadline *)
-  && (match oc_res oc, oc_tmo oc with
-      | OTimeout, Some T => oc_t0 oc + T <=? oc_done oc
-      | OTimeout, None => false
-      | _, _ => true
-      end)
   && (if in_group then true else
       match oc_tmo oc, oc_started oc with
       | Some T, true =>
@@ -770,7 +782,6 @@ Definition check_call (ops : list op) (pts : list N) (alive : list bool) (fw : l
           end
       | _, _ => true
       end)
-  (* no hang: the callee is gone, the port was not handed to a task that still holds it *)
   && (if in_group then true else
       match oc_res oc, oc_started oc with
       | OPending, true =>
@@ -779,13 +790,19 @@ Definition check_call (ops : list op) (pts : list N) (alive : list bool) (fw : l
           | _ => true
           end
       | _, _ => true
-      end)
-  (* forward exactly once on Success, never otherwise, with the reply's value *)
-  && (match oc_fwd oc, oc_res oc with
-      | Some _, OSuccess v =>
-          match fw_c with [(_, v', t, _)] => (v' =? v) && (t =? oc_done oc) | _ => false end
-      | _, _ => match fw_c with [] => true | _ => false end
       end).
+
+Definition check_call (ops : list op) (pts : list N) (alive : list bool) (fw : list (nat * N * N * bool))
+           (c : nat) (oc : ocall) (in_group : bool) : bool :=
+  check_call_safe fw c oc && check_call_rest ops pts alive c oc in_group.
+
+Fixpoint check_calls_safe (fw : list (nat * N * N * bool)) (c : nat) (l : list ocall) : bool :=
+  match l with
+  | [] => true
+  | oc :: r => check_call_safe fw c oc && check_calls_safe fw (S c) r
+  end.
+
+Definition check_C09_safety (o : obs) : bool := check_calls_safe (o_fwds o) 0 (o_calls o).
 
 Fixpoint check_calls (ops : list op) (pts : list N) (alive : list bool) (fw : list (nat * N * N * bool))
          (members : list nat) (c : nat) (l : list ocall) : bool :=
